@@ -80,6 +80,13 @@ fn sig_digits_ok(tokens: &str) -> bool {
 
 fn write_via(spec_shape: &[usize], bits: &[u64], npy: bool, precision: usize, sched: &Schedule) -> (Res<()>, Vec<u8>, u64, u64) {
     let trace = new_trace();
+    // very large spectra are not written one byte per call (hundreds of thousands of calls add
+    // nothing): the schedule's steady-state chunk grows with the size
+    let mut sched = sched.clone();
+    if bits.len() > 20_000 && sched.rest < 64 {
+        sched.rest += 64;
+    }
+    let sched = &sched;
     let mut w = SimWrite::new(sched.clone(), Faults::none(), trace.clone());
     let scs = l1::scs_from(spec_shape, bits);
     let r = l1::write_spectrum(&mut w, &scs, npy, precision);
@@ -177,7 +184,7 @@ impl Prop for C07 {
         let mut spec = gen::gen_spec(&mut rng, 6, 7, max_elems, false);
         if rng.chance(1, 25) {
             // large spectra: sizes around and beyond powers of two (internal block sizes)
-            let target = *rng.pick(&[1000usize, 4095, 4096, 4097, 4200, 5000, 8191, 8193, 10000]);
+            let target = *rng.pick(&[1000usize, 4095, 4096, 4097, 4200, 5000, 8191, 8193, 10000, 65535, 65537]);
             let shape = gen::gen_large_shape(&mut rng, 6, target);
             let n: usize = shape.iter().product();
             let fam = *rng.pick(&[0u64, 2, 4]);
